@@ -194,8 +194,16 @@ func (r *ingressController) buildCanaryIngress(stableIngress *netv1.Ingress) *ne
 				HTTP: &netv1.HTTPIngressRuleValue{},
 			},
 		}
+		// a rule without an http section (everything goes to the default backend) has no path to copy
+		if stableRule.HTTP == nil {
+			continue
+		}
 		// Update all backends pointing to the stableService to point to the canaryService now
 		for ip := 0; ip < len(stableRule.HTTP.Paths); ip++ {
+			// a resource backend has no service
+			if stableRule.HTTP.Paths[ip].Backend.Service == nil {
+				continue
+			}
 			if stableRule.HTTP.Paths[ip].Backend.Service.Name == r.conf.StableService {
 				hasStableServiceBackendRule = true
 				if stableRule.Host != "" {
